@@ -50,6 +50,23 @@ def final_assertions(ids, which, objs):
         p = W.create(ids, W.Human, name=2)
         o.members.add(p)
         return [o, p], {(0, "members", 1), (1, "member_of", 0)}, lambda: any(x is p for x in o.members) and any(x is o for x in p.member_of)
+    if which == "existing-human-works-for-new-org":
+        live = [o for o in objs if isinstance(o, W.Human)]
+        if not live:
+            return None
+        a = live[0]
+        b = W.create(ids, W.Org, name=2)
+        a.works_for = b
+        return [a, b], {(0, "works_for", 1), (0, "member_of", 1), (1, "members", 0)}, lambda: a.works_for is b and any(x is b for x in a.member_of) and any(x is a for x in b.members)
+    if which == "existing-org-sub-org-of-new-chain":
+        live = [o for o in objs if isinstance(o, W.Org)]
+        if not live:
+            return None
+        x = live[0]
+        y, z = (W.create(ids, W.Org, name=i) for i in (2, 3))
+        y.sub_org_of.append(z)
+        x.sub_org_of.append(y)
+        return [x, y, z], {(0, "sub_org_of", 1), (1, "sub_org_of", 2), (0, "sub_org_of", 2)}, lambda: all(any(o is t for o in x.sub_org_of) for t in (y, z)) and [index_of([x, y, z], o) for o in y.sub_org_of] == [2]
     raise ValueError(which)
 
 
@@ -87,6 +104,26 @@ def history_case(L, first_ops, which):
                         W.drop(ids, objs, i)
                     gc.collect()
                     list(an(entity(let(W.Org, None))).evaluate())
+                elif op[0] == "retarget":  # macro: a source outlives its target: h works for o1, then for o2; o1 is let go and swept
+                    hh, o1, o2 = W.create(ids, W.Human, name=len(objs)), W.create(ids, W.Org, name=len(objs) + 1), W.create(ids, W.Org, name=len(objs) + 2)
+                    objs.extend([hh, o1, o2])
+                    hh.works_for = o1
+                    hh.works_for = o2
+                    hh.member_of = [o2]
+                    o1.members = set()
+                    W.drop(ids, objs, len(objs) - 2)
+                    del o1
+                    gc.collect()
+                    list(an(entity(let(W.Org, None))).evaluate())
+                elif op[0] == "retarget-sub":  # macro: the same with the transitive collection property
+                    o0, o1, o2 = (W.create(ids, W.Org, name=len(objs) + i) for i in range(3))
+                    objs.extend([o0, o1, o2])
+                    o0.sub_org_of.append(o1)
+                    o0.sub_org_of = [o2]
+                    W.drop(ids, objs, len(objs) - 2)
+                    del o1
+                    gc.collect()
+                    list(an(entity(let(W.Human, None))).evaluate())
                 elif op[0] == "sweep":
                     list(an(entity(let(W.Org, None))).evaluate())  # every evaluation sweeps dead instances first
 
@@ -96,6 +133,8 @@ def history_case(L, first_ops, which):
                     orgs = [i for i, o in enumerate(objs) if isinstance(o, W.Org)]
                     live = [i for i, o in enumerate(objs) if o is not None]
                     opts = [("create", "Org"), ("create", "Human")] + [("works_for", a, b) for a in humans for b in orgs] + [("sub_org", a, b) for a in orgs for b in orgs if a != b] + [("drop", i) for i in live] + [("collect",), ("sweep",), ("pair",), ("chain",), ("purge",)]
+                    if s < len(first_ops) and first_ops[s][0] in ("retarget", "retarget-sub"):
+                        opts.append(first_ops[s])  # (only as a forced first operation)
                     if s < len(first_ops):
                         op = first_ops[s]
                         if op not in opts:
@@ -152,6 +191,9 @@ def cases(tier, seed):
         for f in firsts:
             nm = "prefix|first=%s|then %s" % ("+".join(":".join(map(str, o)) for o in f), which)
             cs.append(Case(nm + "|L=%d" % L, history_case(L, f, which), key=nm, reset=W.world_reset, validate=0, timeout=900 if tier == "quick" else 3000, max_paths=400000))
+    for f, which in [([("retarget",)], "existing-human-works-for-new-org"), ([("retarget-sub",)], "existing-org-sub-org-of-new-chain"), ([("pair",)], "existing-human-works-for-new-org"), ([("chain",)], "existing-org-sub-org-of-new-chain")]:
+        nm = "prefix|first=%s|then %s" % (f[0][0], which)
+        cs.append(Case(nm + "|L=%d" % L, history_case(L, f, which), key=nm, reset=W.world_reset, validate=0, timeout=900 if tier == "quick" else 3000, max_paths=400000))
     return cs
 
 
@@ -160,7 +202,7 @@ def describe(tier):
     return dict(
         rule="a prefix history of %d operations (bounded symbolic choices among create Org / Human, h.works_for = o, o.sub_org_of.append(o2), drop reference i, gc.collect(), "
         "a sweeping query, and the macro operations 'related pair', 'transitive chain', 'drop everything + collect + sweep') on the real SymbolGraph with a nondeterministic id() allocator (ids and graph slots of dead instances are re-used in every possible way), "
-        "followed by an assertion sequence on new instances (works_for on new / existing org, a transitive chain, members.add); the relations among the final instances, "
+        "followed by an assertion sequence on new instances (works_for on new / existing org, a transitive chain, members.add); also prefixes in which a source outlives its target (the field is re-assigned, the old target is dropped and swept) followed by relating the surviving source to a new instance; the relations among the final instances, "
         "the field values and the number of graph nodes per instance must be what the same assertions give on a fresh graph. non-trivial = every path reaches the assertion" % L,
         bounds=dict(prefix_length=L, classes="Org, Human with Member/MemberOf/WorksFor/SubOrgOf descriptors", ids="every reuse pattern"),
         outside=["prefixes longer than %d" % L, "role-taker (Boss) assertions (covered by C15)", "threads"],
